@@ -615,7 +615,7 @@ def run(chk, replay=None):
                     ln = ln.strip()
                     if ln and not ln.startswith("#"):
                         cases.append((ln.split()[0], ln, ln, None, {"corpus": f}))
-        ncsv = 1800 if quick else 20000
+        ncsv = 1800 if quick else 14000
         for i in range(ncsv):
             T = gen_table(rng, chk.tier)
             data = render_csv(rng, T)
@@ -656,7 +656,7 @@ def run(chk, replay=None):
                 T["rows"] = T["rows"][:17]
                 ln = csv_line(T, render_csv(rng, T), sniff=True)
                 cases.append(("csv", ln, ln, None, {"sniffed": True}))
-        for _ in range(10000 if quick else 150000):
+        for _ in range(10000 if quick else 100000):
             text = b"\n".join(gen_parse_line(rng) for _ in range(rng.between(1, 4)))
             ln = "parse %d %d %d %s" % (rng.choice(b",,,; \t"), rng.below(2), rng.below(2), hx(text))
             cases.append(("parse", ln, ln, None, {}))
